@@ -366,12 +366,20 @@ def oracle(fw, case, log):
         elif o[0] == "unreg" and j0: active_reg.pop(o[1], None)
         elif o[0] == "lose": j0 = False
         elif o[0] == "inv": reg_of_inv[o[3][1]] = active_reg.get(o[2])
+    active_reg_final = {o[1]: o for o in ops if o[0] == "reg"}
     def unfit(o):
         """the caller's arguments do not fit the endpoint (no binding; or type hint violated under check_types)"""
         r = reg_of_inv.get(o[3][1])
         if r is None or len(r) < 7: return False
         return r[5] == "short" or (r[5] == "ill" and r[4])
     interrupted = {o[1] for o in ops if o[0] == "int"}
+    # 0. an endpoint that received something else than the caller's args/kwargs: report that and nothing derived from it
+    for e in log:
+        if e[0] == "called" and e[4][0] == "bad":
+            r = active_reg_final.get(e[3])
+            opts = f"check_types={bool(r[4])}/{r[6]}" if r is not None and len(r) >= 7 else "plain"
+            return [(f"session.invocation/argument-fidelity/{opts}",
+                     f"endpoint of registration {e[3]} ({opts}) received {e[4][1]} instead of the caller's args/kwargs", e[3])]
     # 1. exactly one terminal reply per accepted invocation (histories end with everything finished)
     for req in sorted(set(acc_by_req) | set(term)):
         na, nt = len(acc_by_req.get(req, [])), len(term.get(req, []))
